@@ -174,3 +174,70 @@ PROPS["C09"] = dict(
     trusted_base=COMMON_TRUSTED,
     assumptions=["host-shareable = membership in the closure of module-scope variable types (C08: globalVariableTypes_mem)"],
 )
+
+PROPS["C04"] = dict(
+    lean_modules=["WgslVerif.Props.C04"],
+    theorems=["WgslVerif.C04", "WgslVerif.groupFacts_spec", "WgslVerif.layoutFields_spec", "WgslVerif.bindEntries_spec",
+              "WgslVerif.layoutEntries_binding", "WgslVerif.C11_ok_content", "WgslVerif.C11_exec"],
+    streams=lambda tier, seed: (
+        [("fixtures",), ("gen", "bindings", seed, 300), ("gen", "general", seed, 300), ("gen", "textures", seed, 150), ("c11rand", seed, 200)] if tier == "quick" else
+        [("fixtures",), ("gen", "bindings", seed, 6000), ("gen", "general", seed, 6000), ("gen", "textures", seed, 3000), ("c11rand", seed, 4000), ("gen", "scale", seed, 300)]),
+    opts=q_opts([0], [0, 48]),
+    rule="cases: fixtures + generator profiles bindings/general/textures + random binding multisets (1..8 groups, sparse / unordered / u32-extreme binding indices, declaration order "
+         "unrelated to index order, all resource kinds); non-trivial = at least one bound variable and generation succeeded; distinct = distinct WGSL text",
+    trusted_base=COMMON_TRUSTED,
+    assumptions=["the three SetBindGroup impls are read as (target type, forwarded argument list); the trait text is compared literally"],
+)
+
+PROPS["C13"] = dict(
+    lean_modules=["WgslVerif.Props.C13"],
+    theorems=["WgslVerif.C13", "WgslVerif.C13_stages_used", "WgslVerif.C13_stages_unused", "WgslVerif.C03_present", "WgslVerif.C03_entryStages"],
+    streams=lambda tier, seed: (
+        [("fixtures",), ("gen", "general", seed, 600), ("gen", "entries", seed, 200), ("gen", "callgraph", seed, 200)] if tier == "quick" else
+        [("fixtures",), ("gen", "general", seed, 15000), ("gen", "entries", seed, 4000), ("gen", "callgraph", seed, 4000)]),
+    opts=q_opts([0], [0, 48]),
+    rule="cases: fixtures + generator profiles general/entries/callgraph (push constants of scalar, vector, matrix, padded struct, array type; used directly, through helper chains, "
+         "in several stages, or not at all); every case is checked, the non-trivial ones declare a push constant; distinct = distinct WGSL text",
+    trusted_base=COMMON_TRUSTED + ["Ty.size is naga's TypeInner::size (WGSL byte size); validated against Ext.WgslLayout by the C05 check"],
+    assumptions=["modules with more than one push-constant variable: the first one is described (naga allows one per entry point)"],
+)
+
+PROPS["C14"] = dict(
+    lean_modules=["WgslVerif.Props.C14"],
+    theorems=["WgslVerif.C14", "WgslVerif.fragmentTargetCount_eq", "WgslVerif.C14_legacy_counterexample", "WgslVerif.vertexEntryStructs_length", "WgslVerif.vertexInputOf_isSome"],
+    streams=lambda tier, seed: (
+        [("fixtures",), ("gen", "entries", seed, 500), ("gen", "general", seed, 300), ("gen", "vertex", seed, 200)] if tier == "quick" else
+        [("fixtures",), ("gen", "entries", seed, 12000), ("gen", "general", seed, 6000), ("gen", "vertex", seed, 4000)]),
+    opts=q_opts([0], [0, 48]),
+    rule="cases: fixtures + generator profiles entries/general/vertex (0..3 entry points per stage, arbitrary names incl. non-ASCII, workgroup sizes from literals and constants, "
+         "fragment results: none / bare location / builtin / struct with dense or sparse locations and builtins); non-trivial = at least one entry point; distinct = distinct WGSL text",
+    trusted_base=COMMON_TRUSTED + ["EntryPoint.upper = str::to_uppercase(name) is computed by the harness with the same std the generator links (oracle)"],
+    assumptions=["vertex_state / fragment_state / create_shader_module are fixed templates compared as normalised token text"],
+)
+
+PROPS["C15"] = dict(
+    lean_modules=["WgslVerif.Props.C15"],
+    theorems=["WgslVerif.C15", "WgslVerif.C15_legacy_counterexample", "WgslVerif.C15_skip", "WgslVerif.constTypeAndValue_spec"],
+    streams=lambda tier, seed: (
+        [("fixtures",), ("gen", "consts", seed, 600), ("gen", "general", seed, 300)] if tier == "quick" else
+        [("fixtures",), ("gen", "consts", seed, 15000), ("gen", "general", seed, 6000)]),
+    opts=q_opts([0], [0, 48]),
+    rule="cases: fixtures + generator profiles consts/general (explicit and inferred types, constant expressions, references to other constants, negative values, extremes, subnormals, "
+         "-0.0, f64, bool, non-scalar constants); non-trivial = at least one module constant; distinct = distinct WGSL text",
+    trusted_base=COMMON_TRUSTED + ["float literal text is produced by Rust's Display and read back by rustc: the extractor re-parses each literal with Rust's str::parse and compares bit patterns"],
+    assumptions=["partial: decimal float text is outside the model"],
+)
+
+PROPS["C12"] = dict(
+    lean_modules=["WgslVerif.Props.C12"],
+    theorems=["WgslVerif.C12", "WgslVerif.C12_required_resolves", "WgslVerif.overrideEntry_spec", "WgslVerif.overrideFieldType_spec", "WgslVerif.mapGet_unique"],
+    streams=lambda tier, seed: (
+        [("fixtures",), ("gen", "consts", seed, 600), ("gen", "general", seed, 300), ("gen", "entries", seed, 100)] if tier == "quick" else
+        [("fixtures",), ("gen", "consts", seed, 15000), ("gen", "general", seed, 6000), ("gen", "entries", seed, 2000)]),
+    opts=q_opts([0], [0, 48]),
+    rule="cases: fixtures + generator profiles consts/general/entries (overrides of bool/i32/u32/f32, with and without default, with and without @id, defaults depending on other overrides); "
+         "non-trivial = at least one override; distinct = distinct WGSL text",
+    trusted_base=COMMON_TRUSTED + ["nagaKey transcribes naga 24 back/pipeline_constants.rs (id.to_string() or name)",
+                                   "numeric conversion `as f64` and naga's conversion back are outside the model (theorem is parametric in the value type)"],
+    assumptions=["OverridesScalar (named scalar overrides) is checked on every dumped module"],
+)
